@@ -11,7 +11,11 @@ package fstree
 // SIGKILLs itself exactly there.  Every operation is journalled (O_APPEND|O_SYNC) before
 // it starts and after it returned, so the parent knows which writes were acknowledged.
 // The parent reopens the directory with a new FSTree and judges what it can read with an
-// oracle written from the property statement only.
+// oracle written from the property statement only.  After that the workload goes on: on the
+// directory as the crash left it (leftover temporary files included) the parent – or, for a
+// seeded subset, a second child that crashes as well – writes everything that was in flight
+// again, deletes, re-puts; writes acknowledged now are demanded like those acknowledged
+// before the crash, at every later stage (continue, reopen, CleanUpTmp, continue).
 
 import (
 	"bytes"
@@ -69,6 +73,9 @@ type vf12Spec struct {
 	Ops     []vf12Op  `json:"ops"`
 	Point   string    `json:"point,omitempty"` // crash point ("" = dry run)
 	K       int       `json:"k,omitempty"`
+	// OpBase is the journal index of Ops[0]: a later generation (the workload continued on the directory
+	// an earlier child crashed in) appends to the same journal and numbers its operations after the earlier ones.
+	OpBase int `json:"op_base,omitempty"`
 }
 
 const vf12OpReturned = "harness.op.returned" // crash point "after the last syscall of an op, before its acknowledgement"
@@ -153,7 +160,36 @@ func vf12Child(t *testing.T, specPath string) {
 	if sp.Point != "" {
 		h.CrashAt(sp.Point, sp.K)
 	}
-	for i, op := range sp.Ops {
+	vf12Exec(fst, sp.Ops, sp.OpBase, addrs, datas, j)
+	cnt, _ := json.Marshal(h.Counts())
+	j.Append("COUNTS " + string(cnt))
+	if err := fst.Close(); err != nil {
+		j.Append("E close " + err.Error())
+	}
+	j.Append("DONE")
+	h.Uninstall()
+	j.Close()
+}
+
+// vf12Log receives the operation journal: the O_APPEND file of a crash child, or memory when the
+// parent itself continues the workload on a recovered directory.
+type vf12Log interface{ Append(line string) }
+
+type vf12MemLog struct {
+	mu    sync.Mutex
+	lines []string
+}
+
+func (m *vf12MemLog) Append(line string) {
+	m.mu.Lock()
+	m.lines = append(m.lines, line)
+	m.mu.Unlock()
+}
+
+// vf12Exec runs operations on fst and journals start and outcome of each of them.
+func vf12Exec(fst *FSTree, ops []vf12Op, base int, addrs []oid.Address, datas [][]byte, j vf12Log) {
+	for i, op := range ops {
+		i += base
 		switch op.Kind {
 		case "put":
 			o := op.Objs[0]
@@ -195,17 +231,9 @@ func vf12Child(t *testing.T, specPath string) {
 			wg.Wait()
 		}
 	}
-	cnt, _ := json.Marshal(h.Counts())
-	j.Append("COUNTS " + string(cnt))
-	if err := fst.Close(); err != nil {
-		j.Append("E close " + err.Error())
-	}
-	j.Append("DONE")
-	h.Uninstall()
-	j.Close()
 }
 
-func vf12Ack(j *vf12Journal, kind string, op, o int, err error) {
+func vf12Ack(j vf12Log, kind string, op, o int, err error) {
 	if err == nil {
 		j.Append(fmt.Sprintf("A %s %d %d", kind, op, o))
 		return
@@ -313,11 +341,91 @@ func vf12Generate(rng *rand.Rand, idx int) vf12Gen {
 	return g
 }
 
+// vf12Continuation is the workload that goes on after a recovery, on the directory exactly as the
+// crash left it (nobody is obliged to run CleanUpTmp first): whatever was in flight is requested again
+// (one by one, as PutBatch of mixed sizes padded with other objects, or concurrently), a stored object
+// may be deleted and stored again, stored objects are re-put, a mixed batch is written.  It is a
+// function of the object statuses only (which writes were acknowledged), never of the files on disk.
+func vf12Continuation(rng *rand.Rand, g vf12Gen, status []int) []vf12Op {
+	n := len(g.objs)
+	var maybes, written []int
+	for i, s := range status {
+		if s == vf12Maybe {
+			maybes = append(maybes, i)
+		}
+		if s != vf12Never {
+			written = append(written, i)
+		}
+	}
+	var ops []vf12Op
+	if len(maybes) > 0 {
+		rng.Shuffle(len(maybes), func(a, b int) { maybes[a], maybes[b] = maybes[b], maybes[a] })
+		mode := rng.IntN(3)
+		if mode == 2 && (g.cfg.Generic || len(maybes) < 2) {
+			mode = rng.IntN(2)
+		}
+		switch mode {
+		case 0:
+			for _, o := range maybes {
+				ops = append(ops, vf12Op{Kind: "put", Objs: []int{o}})
+			}
+		case 1:
+			for len(maybes) > 0 {
+				m := min(len(maybes), 8)
+				objs := append([]int{}, maybes[:m]...)
+				maybes = maybes[m:]
+				if pad := rng.IntN(4); pad > 0 && len(objs) < 8 { // other objects of other sizes in the same batch
+					in := map[int]bool{}
+					for _, o := range objs {
+						in[o] = true
+					}
+					for _, o := range rng.Perm(n) {
+						if pad == 0 || len(objs) == 8 {
+							break
+						}
+						if !in[o] {
+							objs = append(objs, o)
+							pad--
+						}
+					}
+					rng.Shuffle(len(objs), func(a, b int) { objs[a], objs[b] = objs[b], objs[a] })
+				}
+				ops = append(ops, vf12Op{Kind: "batch", Objs: objs})
+			}
+		default:
+			m := min(len(maybes), 8)
+			ops = append(ops, vf12Op{Kind: "cput", Objs: append([]int{}, maybes[:m]...)})
+			for _, o := range maybes[m:] {
+				ops = append(ops, vf12Op{Kind: "put", Objs: []int{o}})
+			}
+		}
+	}
+	if len(written) > 0 && rng.IntN(3) == 0 {
+		o := written[rng.IntN(len(written))]
+		ops = append(ops, vf12Op{Kind: "del", Objs: []int{o}}, vf12Op{Kind: "put", Objs: []int{o}})
+	}
+	if rng.IntN(2) == 0 {
+		o := rng.IntN(n)
+		if len(written) > 0 && rng.IntN(3) > 0 {
+			o = written[rng.IntN(len(written))]
+		}
+		ops = append(ops, vf12Op{Kind: "put", Objs: []int{o}})
+	}
+	if rng.IntN(2) == 0 {
+		ops = append(ops, vf12Op{Kind: "batch", Objs: rng.Perm(n)[:min(n, 1+rng.IntN(8))]})
+	}
+	return ops
+}
+
 type vf12Job struct {
 	caseIdx int
 	gen     vf12Gen
 	point   string
 	k       int
+	// second generation: the continuation of the workload on the recovered directory runs in a child
+	// too and stops at the k2-th hit of point2 (stacked leftovers of two crashes)
+	point2 string
+	k2     int
 }
 
 func TestVerif_C12(t *testing.T) {
@@ -332,7 +440,7 @@ func TestVerif_C12(t *testing.T) {
 		return
 	}
 	nCases := r.Pick(6, 70)
-	r.SetRule("per seeded script (config: linux O_TMPFILE/combined or generic writer, depth 0-2, count/size limits, sync on/off; 3-7 ops of Put / PutBatch(1-8) / concurrent Puts(2-8) / Delete / re-Put over 3-10 objects of mixed sizes) every (instrumentation point, k-th hit) seen in a dry run is a crash case: a child SIGKILLs itself there, the parent reopens and checks all reads; distinct = (script, point, k) whose child really died at the point")
+	r.SetRule("per seeded script (config: linux O_TMPFILE/combined or generic writer, depth 0-2, count/size limits, sync on/off; 3-7 ops of Put / PutBatch(1-8) / concurrent Puts(2-8) / Delete / re-Put over 3-10 objects of mixed sizes) every (instrumentation point, k-th hit) seen in a dry run is a crash case: a child SIGKILLs itself there, the parent reopens and checks all reads, then continues the workload on the directory as the crash left it (re-Put of everything in flight by Put / PutBatch / concurrent Puts, delete+re-Put, re-Put of stored objects, mixed batch), checks, reopens, checks, runs CleanUpTmp, checks, continues again, checks; for a seeded subset the continuation itself runs in a second child that crashes at another point; distinct = (script, point, k[, point2, k2]) whose child really died at the point")
 	r.Assume("process-crash model: bytes handed to the kernel survive; power loss / torn sectors not modelled")
 	r.Assume("crash points are the syscall boundaries instrumented by hook commit H2; a crash inside a syscall is not modelled")
 	scratch := os.Getenv("VERIF_SCRATCH")
@@ -347,10 +455,12 @@ func TestVerif_C12(t *testing.T) {
 
 	var jobs []vf12Job
 	enumerated := 0
+	generic := 0
 	for ci := 0; ci < nCases; ci++ {
 		g := vf12Generate(r.Rand("script", ci), ci)
 		// dry run in a child: count the points
-		res, jl := vf12Run(root, fmt.Sprintf("dry-%d", ci), g, "", 0)
+		dry := fmt.Sprintf("dry-%d", ci)
+		res, jl := vf12Run(root, dry, g, g.ops, 0, "", 0)
 		counts := map[string]int{}
 		done := false
 		for _, l := range jl {
@@ -370,24 +480,39 @@ func TestVerif_C12(t *testing.T) {
 			continue
 		}
 		// the dry run itself is a (crash-free) case
-		vf12Check(r, root, fmt.Sprintf("dry-%d", ci), ci, g, "", 0, jl, false)
-		os.RemoveAll(filepath.Join(root, fmt.Sprintf("dry-%d", ci)))
+		vf12Check(r, root, dry, vf12Job{caseIdx: ci, gen: g}, jl, false)
+		os.RemoveAll(filepath.Join(root, dry))
 		names := make([]string, 0, len(counts))
 		for n := range counts {
 			names = append(names, n)
 		}
 		sort.Strings(names)
+		first := len(jobs)
+		var pts []string
 		for _, n := range names {
 			if !r.Thorough() && strings.HasSuffix(n, ".after") {
 				// quick tier: an ".after" point has the same on-disk state as the next ".before"/op-returned point
 				r.Count("points_skipped_in_quick_tier", counts[n])
 				continue
 			}
+			pts = append(pts, n)
 			for k := 1; k <= counts[n]; k++ {
 				jobs = append(jobs, vf12Job{caseIdx: ci, gen: g, point: n, k: k})
 				enumerated++
 			}
 			r.Count("points_enumerated|"+n, counts[n])
+		}
+		// a seeded subset of the crash cases gets a second crash during the continuation
+		if cnt := len(jobs) - first; cnt > 0 {
+			g2 := r.Rand("gen2", ci)
+			for x := r.Pick(8, 20); x > 0; x-- {
+				jb := &jobs[first+g2.IntN(cnt)]
+				p2, k2 := pts[g2.IntN(len(pts))], 1+g2.IntN(3)/2
+				if jb.point2 == "" {
+					jb.point2, jb.k2 = p2, k2
+					r.Count("gen2_cases_enumerated", 1)
+				}
+			}
 		}
 		if ci < 3 {
 			r.Sample(map[string]any{"script": ci, "cfg": g.cfg, "ops": g.ops, "payloads": vf12Payloads(g), "points": counts})
@@ -395,6 +520,7 @@ func TestVerif_C12(t *testing.T) {
 		wr := "linux"
 		if g.cfg.Generic {
 			wr = "generic"
+			generic++
 		}
 		r.Count("scripts_"+wr, 1)
 	}
@@ -412,7 +538,7 @@ func TestVerif_C12(t *testing.T) {
 			for ji := range ch {
 				jb := jobs[ji]
 				name := fmt.Sprintf("c%d-%d", jb.caseIdx, ji)
-				res, jl := vf12Run(root, name, jb.gen, jb.point, jb.k)
+				res, jl := vf12Run(root, name, jb.gen, jb.gen.ops, 0, jb.point, jb.k)
 				r.Eval(1)
 				crashed := res.Signaled && res.Signal == syscall.SIGKILL && !res.TimedOut
 				finished := false
@@ -439,7 +565,7 @@ func TestVerif_C12(t *testing.T) {
 					os.RemoveAll(filepath.Join(root, name))
 					continue
 				}
-				vf12Check(r, root, name, jb.caseIdx, jb.gen, jb.point, jb.k, jl, crashed)
+				vf12Check(r, root, name, jb, jl, crashed)
 				os.RemoveAll(filepath.Join(root, name))
 			}
 		}()
@@ -456,6 +582,9 @@ func TestVerif_C12(t *testing.T) {
 	}
 	if enumerated > 0 && unreached*5 > int64(enumerated) {
 		r.Inconclusive(fmt.Sprintf("%d of %d enumerated crash points were not reached by their child", unreached, enumerated))
+	}
+	if generic > 0 && reached > 0 && r.Counter("continuation_writes_onto_leftover_temp") == 0 {
+		r.Inconclusive("no write of a continued workload ever met a temporary file left by a crash (generic writer scripts were run)")
 	}
 }
 
@@ -474,25 +603,49 @@ func vf12Tail(s string) string {
 	return s
 }
 
-// vf12Run executes the script in a child on a fresh directory and returns the journal.
-func vf12Run(root, name string, g vf12Gen, point string, k int) (verifkit.ChildResult, []string) {
+// vf12Run executes ops in a child on directory <root>/<name>/tree (fresh for the first generation, as
+// the previous child left it for a later one) and returns the whole journal.
+func vf12Run(root, name string, g vf12Gen, ops []vf12Op, opBase int, point string, k int) (verifkit.ChildResult, []string) {
 	base := filepath.Join(root, name)
 	_ = os.MkdirAll(base, 0o755)
-	sp := vf12Spec{Dir: filepath.Join(base, "tree"), Journal: filepath.Join(base, "journal"), Cfg: g.cfg, Objs: g.objs, Ops: g.ops, Point: point, K: k}
+	sp := vf12Spec{Dir: filepath.Join(base, "tree"), Journal: filepath.Join(base, "journal"), Cfg: g.cfg, Objs: g.objs, Ops: ops, Point: point, K: k, OpBase: opBase}
 	b, _ := json.Marshal(sp)
-	specPath := filepath.Join(base, "spec.json")
+	specPath := filepath.Join(base, fmt.Sprintf("spec-%d.json", opBase))
 	_ = os.WriteFile(specPath, b, 0o644)
 	res := verifkit.SpawnChild("TestVerif_C12", specPath, nil, 120*time.Second)
 	return res, verifkit.ReadJournal(sp.Journal)
 }
 
-// vf12Check is the recovery oracle.
-func vf12Check(r *verifkit.Run, root, name string, ci int, g vf12Gen, point string, k int, journal []string, crashed bool) {
-	desc := map[string]any{"script": ci, "cfg": g.cfg, "ops": g.ops, "objs": g.objs, "crash_point": point, "k": k, "journal": journal}
-	n := len(g.objs)
-	status := make([]int, n)
-	inOp := ""
-	for _, l := range journal {
+// vf12Ctx is one crash case under judgement: the script, everything journalled so far (by the crash
+// children and by the parent's own continuation) and the statuses the statement lets us demand.
+type vf12Ctx struct {
+	r       *verifkit.Run
+	g       vf12Gen
+	ci      int
+	dir     string
+	wr      string
+	point   string
+	k       int
+	ops     []vf12Op // script + continuations, indexed by the journal's operation numbers
+	journal []string
+	status  []int
+	addrs   []oid.Address
+	datas   [][]byte
+	byAddr  map[oid.Address]int
+	lost    map[int]bool // objects already reported as lost at an earlier stage of this case (reported once)
+	bad     map[int]bool // objects already reported as readable/listed with wrong bytes at an earlier stage
+}
+
+var vf12StName = []string{"never", "maybe", "present", "deleted"}
+
+func (c *vf12Ctx) desc() map[string]any {
+	return map[string]any{"script": c.ci, "cfg": c.g.cfg, "ops": c.ops, "script_ops": len(c.g.ops), "objs": c.g.objs, "crash_point": c.point, "k": c.k, "journal": append([]string{}, c.journal...)}
+}
+
+// derive recomputes the object statuses from the journal and returns the kind of the last started operation.
+func (c *vf12Ctx) derive() (inOp string) {
+	status := make([]int, len(c.g.objs))
+	for _, l := range c.journal {
 		f := strings.Fields(l)
 		if len(f) < 4 || (f[0] != "S" && f[0] != "A" && f[0] != "E") {
 			continue
@@ -503,14 +656,15 @@ func vf12Check(r *verifkit.Run, root, name string, ci int, g vf12Gen, point stri
 			if status[o] != vf12Present { // re-put of a stored object: it stays demanded
 				status[o] = vf12Maybe
 			}
-			inOp = g.ops[vf12Atoi(f[2])].Kind
+			if oi := vf12Atoi(f[2]); oi < len(c.ops) {
+				inOp = c.ops[oi].Kind
+			}
 		case "Aput":
 			status[o] = vf12Present
 		case "Eput":
 			if status[o] != vf12Present {
 				status[o] = vf12Maybe
 			}
-			r.Count("child_put_errors", 1)
 		case "Sdel":
 			if status[o] != vf12Never {
 				status[o] = vf12Maybe
@@ -522,185 +676,325 @@ func vf12Check(r *verifkit.Run, root, name string, ci int, g vf12Gen, point stri
 			// failed deletion (not found): nothing changes
 		}
 	}
-	if crashed {
-		r.Seen("op_kind_running_at_crash", inOp)
-	}
-	addrs := make([]oid.Address, n)
-	datas := make([][]byte, n)
-	byAddr := map[oid.Address]int{}
-	for i, o := range g.objs {
-		addrs[i], datas[i] = vf12Make(o)
-		byAddr[addrs[i]] = i
-	}
-	wr := "linux"
-	if g.cfg.Generic {
-		wr = "generic"
-	}
-	stName := []string{"never", "maybe", "present", "deleted"}
-	dir := filepath.Join(root, name, "tree")
+	c.status = status
+	return inOp
+}
 
-	// leftover temp files the crash left on disk (evidence only)
-	_ = filepath.WalkDir(dir, func(p string, d os.DirEntry, err error) error {
+func (c *vf12Ctx) key(stage, s string) string {
+	return fmt.Sprintf("%s|%s|%s|point=%s", s, c.wr, stage, c.point)
+}
+
+// stage opens the directory with a fresh FSTree, runs f on it and closes it; false = cannot go on.
+func (c *vf12Ctx) stage(stage string, f func(fst *FSTree)) bool {
+	var fst *FSTree
+	var err error
+	if c.r.Guard(c.desc(), func() { fst, err = vf12Open(c.dir, c.g.cfg) }) {
+		return false
+	}
+	if err != nil {
+		c.r.Violation(c.key(stage, "reopen-failed"), fmt.Sprintf("storage cannot be reopened after the crash: %v", err), c.desc())
+		return false
+	}
+	c.r.Guard(c.desc(), func() { f(fst) })
+	c.r.Guard(c.desc(), func() { _ = fst.Close() })
+	return true
+}
+
+// leftovers counts the temporary files on disk and tells which objects have one next to their path.
+func (c *vf12Ctx) leftovers(fst *FSTree) (files int, objs map[int]bool) {
+	objs = map[int]bool{}
+	byPath := map[string]int{}
+	for i, a := range c.addrs {
+		byPath[fst.treePath(a)] = i
+	}
+	_ = filepath.WalkDir(c.dir, func(p string, d os.DirEntry, err error) error {
 		if err == nil && !d.IsDir() && strings.Contains(d.Name(), "#") {
-			r.Count("leftover_temp_files_found_after_crash", 1)
+			files++
+			if i, ok := byPath[p[:strings.LastIndex(p, "#")]]; ok {
+				objs[i] = true
+			}
 		}
 		return nil
 	})
-	for pass := 0; pass < 2; pass++ {
-		passName := []string{"reopen", "reopen+CleanUpTmp"}[pass]
-		key := func(s string) string {
-			return fmt.Sprintf("%s|%s|%s|point=%s", s, wr, passName, point)
+	return files, objs
+}
+
+// continueWorkload runs a seeded continuation on the open storage in this process, journals it and
+// recomputes the statuses: a write that returns success now is as binding as one acknowledged before the crash.
+func (c *vf12Ctx) continueWorkload(fst *FSTree, rng *rand.Rand) {
+	cont := vf12Continuation(rng, c.g, c.status)
+	_, tmp := c.leftovers(fst)
+	for _, op := range cont {
+		c.r.Count("continuation_ops|"+op.Kind, 1)
+		if op.Kind == "del" {
+			continue
 		}
-		var fst *FSTree
-		var err error
-		if r.Guard(desc, func() { fst, err = vf12Open(dir, g.cfg) }) {
-			return
-		}
-		if err != nil {
-			r.Violation(key("reopen-failed"), fmt.Sprintf("storage cannot be reopened after the crash: %v", err), desc)
-			return
-		}
-		if pass == 1 {
-			if err := fst.CleanUpTmp(); err != nil {
-				r.Violation(key("cleanuptmp-failed"), fmt.Sprintf("CleanUpTmp failed: %v", err), desc)
+		for _, o := range op.Objs {
+			if tmp[o] {
+				c.r.Count("continuation_writes_onto_leftover_temp", 1)
+			}
+			if c.status[o] == vf12Maybe {
+				c.r.Count("continuation_writes_of_in_flight_objects", 1)
 			}
 		}
-		r.Guard(desc, func() {
-			for i := 0; i < n; i++ {
-				got, err := fst.GetBytes(addrs[i])
-				r.Count("reads_"+stName[status[i]], 1)
-				if err == nil {
-					r.Count("readable_"+stName[status[i]], 1)
-					if !bytes.Equal(got, datas[i]) {
-						r.Violation(key("wrong-bytes|GetBytes|status="+stName[status[i]]), fmt.Sprintf("object %d (%s, %d bytes) readable with %d different bytes (common prefix %d)", i, addrs[i], len(datas[i]), len(got), vf12Common(got, datas[i])), desc)
-					}
-				} else if status[i] == vf12Present {
-					r.Violation(key("acked-write-lost|GetBytes"), fmt.Sprintf("object %d (%s) whose write returned success is not readable: %v", i, addrs[i], err), desc)
-				} else if !errors.Is(err, apistatus.ErrObjectNotFound) {
-					r.Seen("non_notfound_errors_on_unacked", vf12ErrShape(err))
-				}
-				// the other read paths must agree on "present" objects and never give different bytes
-				obj, gerr := fst.Get(addrs[i])
-				if gerr == nil {
-					if !bytes.Equal(obj.Marshal(), datas[i]) {
-						r.Violation(key("wrong-bytes|Get|status="+stName[status[i]]), fmt.Sprintf("Get of object %d decodes to a different object", i), desc)
-					}
-				} else if status[i] == vf12Present {
-					r.Violation(key("acked-write-lost|Get"), fmt.Sprintf("object %d whose write returned success: Get: %v", i, gerr), desc)
-				}
-				hdr, rd, serr := fst.GetStream(addrs[i])
-				if serr == nil {
-					pl, rerr := io.ReadAll(rd)
-					_ = rd.Close()
-					var want object.Object
-					_ = want.Unmarshal(datas[i])
-					if rerr != nil || !bytes.Equal(pl, want.Payload()) || hdr == nil || hdr.GetID() != want.GetID() || hdr.PayloadSize() != want.PayloadSize() {
-						r.Violation(key("wrong-bytes|GetStream|status="+stName[status[i]]), fmt.Sprintf("GetStream of object %d: payload %d bytes (want %d), read err %v", i, len(pl), len(want.Payload()), rerr), desc)
-					}
-				} else if status[i] == vf12Present {
-					r.Violation(key("acked-write-lost|GetStream"), fmt.Sprintf("object %d whose write returned success: GetStream: %v", i, serr), desc)
-				}
-				if hd, herr := fst.Head(addrs[i]); herr == nil {
-					var want object.Object
-					_ = want.Unmarshal(datas[i])
-					if hd.GetID() != want.GetID() || hd.PayloadSize() != want.PayloadSize() || hd.GetContainerID() != want.GetContainerID() {
-						r.Violation(key("wrong-bytes|Head|status="+stName[status[i]]), fmt.Sprintf("Head of object %d returns a different header", i), desc)
-					}
-				} else if status[i] == vf12Present {
-					r.Violation(key("acked-write-lost|Head"), fmt.Sprintf("object %d whose write returned success: Head: %v", i, herr), desc)
-				}
-				if ex, eerr := fst.Exists(addrs[i]); status[i] == vf12Present && (eerr != nil || !ex) {
-					r.Violation(key("acked-write-lost|Exists"), fmt.Sprintf("object %d whose write returned success: Exists=%v,%v", i, ex, eerr), desc)
-				}
-			}
-			// iteration: only objects, each at most once, with their own bytes; every demanded object listed
-			seen := map[oid.Address]int{}
-			iterErrs := map[oid.Address]error{}
-			err := fst.Iterate(func(a oid.Address, data []byte) error {
-				seen[a]++
-				i, ok := byAddr[a]
-				if !ok {
-					r.Violation(key("iterate-foreign-address"), fmt.Sprintf("Iterate yields %s which was never written", a), desc)
-					return nil
-				}
-				if !bytes.Equal(data, datas[i]) {
-					r.Violation(key("wrong-bytes|Iterate|status="+stName[status[i]]), fmt.Sprintf("Iterate yields object %d with %d different bytes (want %d)", i, len(data), len(datas[i])), desc)
-				}
-				return nil
-			}, func(a oid.Address, err error) error {
-				iterErrs[a] = err
-				return nil
-			})
-			if err != nil {
-				r.Violation(key("iterate-failed"), fmt.Sprintf("Iterate fails after the crash: %v", err), desc)
-			}
-			listed := map[oid.Address]int{}
-			err = fst.IterateAddresses(func(a oid.Address) error {
-				listed[a]++
-				if _, ok := byAddr[a]; !ok {
-					r.Violation(key("iterate-addresses-foreign"), fmt.Sprintf("IterateAddresses yields %s which was never written", a), desc)
-				}
-				return nil
-			}, false)
-			if err != nil {
-				r.Violation(key("iterate-addresses-failed"), fmt.Sprintf("IterateAddresses fails after the crash: %v", err), desc)
-			}
-			sized := map[oid.Address]int{}
-			err = fst.IterateSizes(func(a oid.Address, _ uint64) error {
-				sized[a]++
-				if _, ok := byAddr[a]; !ok {
-					r.Violation(key("iterate-sizes-foreign"), fmt.Sprintf("IterateSizes yields %s which was never written", a), desc)
-				}
-				return nil
-			}, false)
-			if err != nil {
-				r.Violation(key("iterate-sizes-failed"), fmt.Sprintf("IterateSizes fails after the crash: %v", err), desc)
-			}
-			for i := 0; i < n; i++ {
-				a := addrs[i]
-				if seen[a] > 1 || listed[a] > 1 || sized[a] > 1 {
-					r.Violation(key("iterate-duplicate"), fmt.Sprintf("object %d listed more than once (%d/%d/%d)", i, seen[a], listed[a], sized[a]), desc)
-				}
-				if status[i] == vf12Present && (seen[a] != 1 || listed[a] != 1 || sized[a] != 1) {
-					r.Violation(key("acked-write-lost|Iterate"), fmt.Sprintf("object %d whose write returned success is not iterated (%d/%d/%d, err %v)", i, seen[a], listed[a], sized[a], iterErrs[a]), desc)
-				}
-				// what iteration presents as an object must be an object for reads too (a listed name that
-				// cannot be read is a leftover temporary / half-made file showing up)
-				if seen[a]+listed[a]+sized[a] > 0 {
-					if got, err := fst.GetBytes(a); err != nil || !bytes.Equal(got, datas[i]) {
-						r.Violation(key("listed-but-not-an-object|status="+stName[status[i]]), fmt.Sprintf("object %d is listed by iteration (%d/%d/%d) but GetBytes gives err=%v", i, seen[a], listed[a], sized[a], err), desc)
-					}
-				}
-				if status[i] == vf12Never && (seen[a] != 0 || listed[a] != 0) {
-					r.Violation(key("iterate-never-written"), fmt.Sprintf("object %d whose write never started is iterated", i), desc)
-				}
-			}
-			r.Count("objects_checked", n)
-			r.Count("iterated_objects", len(seen))
-		})
-		if pass == 1 {
-			// retry what was in flight (existing links / leftover temp files must be tolerated): a write that
-			// now returns success must be readable as well
-			r.Guard(desc, func() {
-				for i := 0; i < n; i++ {
-					if status[i] != vf12Maybe {
-						continue
-					}
-					if err := fst.Put(addrs[i], datas[i]); err != nil {
-						r.Count("retry_put_errors", 1)
-						r.Seen("retry_put_error_shapes", vf12ErrShape(err))
-						continue
-					}
-					r.Count("retry_put_ok", 1)
-					got, err := fst.GetBytes(addrs[i])
-					if err != nil || !bytes.Equal(got, datas[i]) {
-						r.Violation(key("retry-put-not-readable"), fmt.Sprintf("retried write of object %d returned success but read gives err=%v equal=%v", i, err, bytes.Equal(got, datas[i])), desc)
-					}
-				}
-			})
-		}
-		r.Guard(desc, func() { _ = fst.Close() })
 	}
+	var ml vf12MemLog
+	base := len(c.ops)
+	c.ops = append(c.ops, cont...)
+	vf12Exec(fst, cont, base, c.addrs, c.datas, &ml)
+	for _, l := range ml.lines {
+		switch f := strings.Fields(l); f[0] + f[1] {
+		case "Aput":
+			c.r.Count("continuation_put_ok", 1)
+		case "Eput":
+			c.r.Count("continuation_put_errors", 1)
+			if len(f) > 5 {
+				c.r.Seen("continuation_put_error_shapes", vf12ErrShape(errors.New(strings.Join(f[5:], " "))))
+			}
+		}
+	}
+	c.journal = append(c.journal, ml.lines...)
+	c.derive()
+}
+
+// vf12Check is the recovery oracle.
+func vf12Check(r *verifkit.Run, root, name string, jb vf12Job, journal []string, crashed bool) {
+	g := jb.gen
+	c := &vf12Ctx{r: r, g: g, ci: jb.caseIdx, dir: filepath.Join(root, name, "tree"), wr: "linux", point: jb.point, k: jb.k,
+		ops: append([]vf12Op{}, g.ops...), journal: journal, byAddr: map[oid.Address]int{}, lost: map[int]bool{}, bad: map[int]bool{}}
+	if g.cfg.Generic {
+		c.wr = "generic"
+	}
+	n := len(g.objs)
+	c.addrs = make([]oid.Address, n)
+	c.datas = make([][]byte, n)
+	for i, o := range g.objs {
+		c.addrs[i], c.datas[i] = vf12Make(o)
+		c.byAddr[c.addrs[i]] = i
+	}
+	inOp := c.derive()
+	for _, l := range journal {
+		if strings.HasPrefix(l, "E put ") {
+			r.Count("child_put_errors", 1)
+		}
+	}
+	if crashed {
+		r.Seen("op_kind_running_at_crash", inOp)
+	}
+	rng := r.Rand(fmt.Sprintf("cont|%s|%d", jb.point, jb.k), jb.caseIdx)
+
+	// 1. the directory as the crash left it
+	if !c.stage("reopen", func(fst *FSTree) {
+		files, _ := c.leftovers(fst)
+		r.Count("leftover_temp_files_found_after_crash", files)
+		c.reads(fst, "reopen")
+	}) {
+		return
+	}
+	// 2. (subset) the workload goes on in a second child that crashes as well
+	if jb.point2 != "" {
+		cont := vf12Continuation(rng, g, c.status)
+		base := len(c.ops)
+		c.ops = append(c.ops, cont...)
+		before := len(c.journal)
+		res, jl := vf12Run(root, name, g, cont, base, jb.point2, jb.k2)
+		r.Eval(1)
+		crashed2 := res.Signaled && res.Signal == syscall.SIGKILL && !res.TimedOut
+		finished2 := false
+		for _, l := range jl[min(before, len(jl)):] {
+			if l == "DONE" {
+				finished2 = true
+			}
+			if strings.HasPrefix(l, "FATAL") {
+				finished2 = false
+				break
+			}
+		}
+		switch {
+		case crashed2:
+			r.Count("gen2_child_died_at_point", 1)
+			r.Count("gen2_points_reached|"+jb.point2, 1)
+			r.Distinct(fmt.Sprintf("%d|%s|%d>%s|%d", jb.caseIdx, jb.point, jb.k, jb.point2, jb.k2))
+		case finished2 && res.ExitCode == 0:
+			r.Count("gen2_point_not_reached", 1) // the continuation was a crash-free run in another process
+		default:
+			r.Inconclusive(fmt.Sprintf("second-generation child %s (%s#%d > %s#%d) ended unexpectedly: exit=%d signaled=%v timeout=%v out=%s", name, jb.point, jb.k, jb.point2, jb.k2, res.ExitCode, res.Signaled, res.TimedOut, vf12Tail(res.Output)))
+			return
+		}
+		if len(jl) < before {
+			r.Inconclusive("journal of " + name + " shrank")
+			return
+		}
+		c.journal = jl
+		c.derive()
+		if crashed2 {
+			c.point = jb.point + ">" + jb.point2
+		}
+		if !c.stage("reopen", func(fst *FSTree) { c.reads(fst, "reopen") }) {
+			return
+		}
+	}
+	// 3. the workload goes on in this process on the directory as it is, leftovers included
+	if !c.stage("reopen+continue", func(fst *FSTree) {
+		c.continueWorkload(fst, rng)
+		c.reads(fst, "reopen+continue")
+	}) {
+		return
+	}
+	if !c.stage("reopen+continue+reopen", func(fst *FSTree) { c.reads(fst, "reopen+continue+reopen") }) {
+		return
+	}
+	// 4. garbage removal must take nothing but garbage; then the workload goes on once more
+	c.stage("CleanUpTmp", func(fst *FSTree) {
+		if err := fst.CleanUpTmp(); err != nil {
+			r.Violation(c.key("CleanUpTmp", "cleanuptmp-failed"), fmt.Sprintf("CleanUpTmp failed: %v", err), c.desc())
+		}
+		c.reads(fst, "CleanUpTmp")
+		if files, _ := c.leftovers(fst); files > 0 {
+			r.Count("temp_files_surviving_cleanuptmp", files)
+		}
+		c.continueWorkload(fst, rng)
+		c.reads(fst, "CleanUpTmp+continue")
+	})
+}
+
+// reads judges every read path of the open storage against the current statuses.
+func (c *vf12Ctx) reads(fst *FSTree, stage string) {
+	r, n, status, addrs, datas, byAddr := c.r, len(c.g.objs), c.status, c.addrs, c.datas, c.byAddr
+	stName := vf12StName
+	desc := c.desc()
+	key := func(s string) string { return c.key(stage, s) }
+	r.Count("read_checks|"+stage, 1)
+	// demanded = the statement demands the object AND its loss was not reported at an earlier stage already
+	demanded := make([]bool, n)
+	for i := range demanded {
+		demanded[i] = status[i] == vf12Present && !c.lost[i]
+	}
+	badBefore := map[int]bool{}
+	for i := range c.bad {
+		badBefore[i] = true
+	}
+	wrong := func(i int, k, what string) {
+		if !badBefore[i] {
+			c.bad[i] = true
+			r.Violation(key(k), what, desc)
+		}
+	}
+	lose := func(i int, k, what string) {
+		c.lost[i] = true
+		r.Violation(key(k), what, desc)
+	}
+	for i := 0; i < n; i++ {
+		got, err := fst.GetBytes(addrs[i])
+		r.Count("reads_"+stName[status[i]], 1)
+		if err == nil {
+			r.Count("readable_"+stName[status[i]], 1)
+			if !bytes.Equal(got, datas[i]) {
+				wrong(i, "wrong-bytes|GetBytes|status="+stName[status[i]], fmt.Sprintf("object %d (%s, %d bytes) readable with %d different bytes (common prefix %d)", i, addrs[i], len(datas[i]), len(got), vf12Common(got, datas[i])))
+			}
+		} else if demanded[i] {
+			lose(i, "acked-write-lost|GetBytes", fmt.Sprintf("object %d (%s) whose write returned success is not readable: %v", i, addrs[i], err))
+		} else if !errors.Is(err, apistatus.ErrObjectNotFound) {
+			r.Seen("non_notfound_errors_on_unacked", vf12ErrShape(err))
+		}
+		// the other read paths must agree on "present" objects and never give different bytes
+		obj, gerr := fst.Get(addrs[i])
+		if gerr == nil {
+			if !bytes.Equal(obj.Marshal(), datas[i]) {
+				wrong(i, "wrong-bytes|Get|status="+stName[status[i]], fmt.Sprintf("Get of object %d decodes to a different object", i))
+			}
+		} else if demanded[i] {
+			lose(i, "acked-write-lost|Get", fmt.Sprintf("object %d whose write returned success: Get: %v", i, gerr))
+		}
+		hdr, rd, serr := fst.GetStream(addrs[i])
+		if serr == nil {
+			pl, rerr := io.ReadAll(rd)
+			_ = rd.Close()
+			var want object.Object
+			_ = want.Unmarshal(datas[i])
+			if rerr != nil || !bytes.Equal(pl, want.Payload()) || hdr == nil || hdr.GetID() != want.GetID() || hdr.PayloadSize() != want.PayloadSize() {
+				wrong(i, "wrong-bytes|GetStream|status="+stName[status[i]], fmt.Sprintf("GetStream of object %d: payload %d bytes (want %d), read err %v", i, len(pl), len(want.Payload()), rerr))
+			}
+		} else if demanded[i] {
+			lose(i, "acked-write-lost|GetStream", fmt.Sprintf("object %d whose write returned success: GetStream: %v", i, serr))
+		}
+		if hd, herr := fst.Head(addrs[i]); herr == nil {
+			var want object.Object
+			_ = want.Unmarshal(datas[i])
+			if hd.GetID() != want.GetID() || hd.PayloadSize() != want.PayloadSize() || hd.GetContainerID() != want.GetContainerID() {
+				wrong(i, "wrong-bytes|Head|status="+stName[status[i]], fmt.Sprintf("Head of object %d returns a different header", i))
+			}
+		} else if demanded[i] {
+			lose(i, "acked-write-lost|Head", fmt.Sprintf("object %d whose write returned success: Head: %v", i, herr))
+		}
+		if ex, eerr := fst.Exists(addrs[i]); demanded[i] && (eerr != nil || !ex) {
+			lose(i, "acked-write-lost|Exists", fmt.Sprintf("object %d whose write returned success: Exists=%v,%v", i, ex, eerr))
+		}
+	}
+	// iteration: only objects, each at most once, with their own bytes; every demanded object listed
+	seen := map[oid.Address]int{}
+	iterErrs := map[oid.Address]error{}
+	err := fst.Iterate(func(a oid.Address, data []byte) error {
+		seen[a]++
+		i, ok := byAddr[a]
+		if !ok {
+			r.Violation(key("iterate-foreign-address"), fmt.Sprintf("Iterate yields %s which was never written", a), desc)
+			return nil
+		}
+		if !bytes.Equal(data, datas[i]) {
+			wrong(i, "wrong-bytes|Iterate|status="+stName[status[i]], fmt.Sprintf("Iterate yields object %d with %d different bytes (want %d)", i, len(data), len(datas[i])))
+		}
+		return nil
+	}, func(a oid.Address, err error) error {
+		iterErrs[a] = err
+		return nil
+	})
+	if err != nil {
+		r.Violation(key("iterate-failed"), fmt.Sprintf("Iterate fails after the crash: %v", err), desc)
+	}
+	listed := map[oid.Address]int{}
+	err = fst.IterateAddresses(func(a oid.Address) error {
+		listed[a]++
+		if _, ok := byAddr[a]; !ok {
+			r.Violation(key("iterate-addresses-foreign"), fmt.Sprintf("IterateAddresses yields %s which was never written", a), desc)
+		}
+		return nil
+	}, false)
+	if err != nil {
+		r.Violation(key("iterate-addresses-failed"), fmt.Sprintf("IterateAddresses fails after the crash: %v", err), desc)
+	}
+	sized := map[oid.Address]int{}
+	err = fst.IterateSizes(func(a oid.Address, _ uint64) error {
+		sized[a]++
+		if _, ok := byAddr[a]; !ok {
+			r.Violation(key("iterate-sizes-foreign"), fmt.Sprintf("IterateSizes yields %s which was never written", a), desc)
+		}
+		return nil
+	}, false)
+	if err != nil {
+		r.Violation(key("iterate-sizes-failed"), fmt.Sprintf("IterateSizes fails after the crash: %v", err), desc)
+	}
+	for i := 0; i < n; i++ {
+		a := addrs[i]
+		if seen[a] > 1 || listed[a] > 1 || sized[a] > 1 {
+			r.Violation(key("iterate-duplicate"), fmt.Sprintf("object %d listed more than once (%d/%d/%d)", i, seen[a], listed[a], sized[a]), desc)
+		}
+		if demanded[i] && (seen[a] != 1 || listed[a] != 1 || sized[a] != 1) {
+			lose(i, "acked-write-lost|Iterate", fmt.Sprintf("object %d whose write returned success is not iterated (%d/%d/%d, err %v)", i, seen[a], listed[a], sized[a], iterErrs[a]))
+		}
+		// what iteration presents as an object must be an object for reads too (a listed name that
+		// cannot be read is a leftover temporary / half-made file showing up)
+		if seen[a]+listed[a]+sized[a] > 0 {
+			if got, err := fst.GetBytes(a); err != nil || !bytes.Equal(got, datas[i]) {
+				wrong(i, "listed-but-not-an-object|status="+stName[status[i]], fmt.Sprintf("object %d is listed by iteration (%d/%d/%d) but GetBytes gives err=%v", i, seen[a], listed[a], sized[a], err))
+			}
+		}
+		if status[i] == vf12Never && (seen[a] != 0 || listed[a] != 0) {
+			r.Violation(key("iterate-never-written"), fmt.Sprintf("object %d whose write never started is iterated", i), desc)
+		}
+	}
+	r.Count("objects_checked", n)
+	r.Count("iterated_objects", len(seen))
 }
 
 func vf12Atoi(s string) int { v, _ := strconv.Atoi(s); return v }
